@@ -7,6 +7,7 @@ def run(ctx):
     batch.run_property(ctx, "C07")
     batch.run_mutex(ctx)
     batch.check_installed(ctx)
+    batch.blackbox_stress(ctx)
     if not ctx.quick:
         batch.stress_free_running(ctx)
 
